@@ -122,12 +122,23 @@ class BoolArr(Model):
 
     def __setitem__(self, i, x):
         try:
+            if isinstance(i, slice):
+                # a strided store arr[2::3] = other: element by element (a scalar is broadcast), lengths must agree as in numpy
+                n = len(range(*i.indices(len(self.v))))
+                vals = list(x.v) if isinstance(x, BoolArr) else list(x) if isinstance(x, (list, tuple)) else [x] * n
+                if len(vals) != n:
+                    raise Raised("ValueError", None, "could not broadcast input array from shape (%d,) into shape (%d,)" % (len(vals), n))
+                self.v[i] = [bool(e) for e in vals]
+                return
             self.v[i] = bool(x)
         except (IndexError, TypeError) as e:
             raise Raised("IndexError", None, str(e))
 
     def __len__(self):
         return len(self.v)
+
+    def __iter__(self):
+        return iter(self.v)
 
 
 class Table(Model):
